@@ -511,6 +511,8 @@ pub fn parts(id: &'static str, tier: Tier) -> Vec<Part<Case>> {
             let mut c = GenCfg::base(len);
             c.w_modify = 30;
             c.w_event = 12;
+            // a snapshot reload between a re-queuing modification and the trade that reveals the queue order
+            c.w_reload = 2;
             parts.push(random_part("random-dense-modify", c.clone(), tier.pick(120_000, 2_000_000)));
             c.wide = true;
             parts.push(random_part("random-wide-modify", c.clone(), tier.pick(50_000, 1_000_000)));
